@@ -278,3 +278,25 @@ func (g *grid) Transposed() float64 {
 	}
 	return sum
 }
+
+type tnode struct {
+	kids []*tnode
+	val  int
+}
+
+// want:ALLCHILD the third and later children are dropped.
+func SumTwoKids(n *tnode) int {
+	if len(n.kids) == 0 {
+		return n.val
+	}
+	return SumTwoKids(n.kids[0]) + SumTwoKids(n.kids[1])
+}
+
+// clean:ALLCHILD
+func SumAllKids(n *tnode) int {
+	total := n.val
+	for _, k := range n.kids {
+		total += SumAllKids(k)
+	}
+	return total
+}
